@@ -310,6 +310,52 @@ def _is_value_expr(e: ast.expr) -> bool:
     return True
 
 
+NAMEDTUPLE_FIELDS: dict[str, list[tuple[str, ast.expr | None]]] = {}
+"""class name -> [(field, default)] of the NamedTuple classes of the analysed package (registered by srcmodel.Repo)."""
+
+
+class _Project(ast.NodeTransformer):
+    """``T(a, b, c).f`` -> the argument bound to field f, and ``T(a, b, c)[k]`` likewise, for NamedTuple classes of the package whose
+    construction has pure arguments (a projection of a freshly built record never observes anything else)."""
+
+    def _args(self, c: ast.Call) -> dict[str, ast.expr] | None:
+        name = dotted(c.func)
+        fields = NAMEDTUPLE_FIELDS.get(name or "")
+        if fields is None or any(isinstance(a, ast.Starred) for a in c.args) or len(c.args) > len(fields):
+            return None
+        out: dict[str, ast.expr] = {}
+        for (fname, _), a in zip(fields, c.args):
+            out[fname] = a
+        for k in c.keywords:
+            if k.arg is None or k.arg in out or k.arg not in [f for f, _ in fields]:
+                return None
+            out[k.arg] = k.value
+        for fname, dflt in fields:
+            if fname not in out:
+                if dflt is None:
+                    return None
+                out[fname] = dflt
+        if not all(is_pure_expr(v) for v in out.values()):
+            return None
+        return out
+
+    def visit_Attribute(self, node: ast.Attribute) -> ast.AST:
+        self.generic_visit(node)
+        if isinstance(node.value, ast.Call) and isinstance(node.ctx, ast.Load):
+            b = self._args(node.value)
+            if b is not None and node.attr in b:
+                return copy.deepcopy(b[node.attr])
+        return node
+
+    def visit_Subscript(self, node: ast.Subscript) -> ast.AST:
+        self.generic_visit(node)
+        if isinstance(node.value, ast.Call) and isinstance(node.ctx, ast.Load) and isinstance(node.slice, ast.Constant) and isinstance(node.slice.value, int):
+            b = self._args(node.value)
+            if b is not None and 0 <= node.slice.value < len(b):
+                return copy.deepcopy(list(b.values())[node.slice.value])
+        return node
+
+
 class PathEnv:
     """Path-local definitions of pure locals (see resolve_path)."""
 
@@ -330,6 +376,8 @@ class PathEnv:
                 n2 = _Subst({k: v for k, v in self.env.items() if k not in stored}).visit(n2)
             else:
                 n2 = _Subst(self.env).visit(n2)
+            if NAMEDTUPLE_FIELDS:
+                n2 = _Project().visit(n2)
         return ast.fix_missing_locations(n2)
 
     def _ok_value(self, val: ast.expr) -> bool:
@@ -981,8 +1029,32 @@ class HelperInliner:
             return None
         callee, implicit, q = r
         ys = [n for n in ast.walk(callee) if isinstance(n, (ast.Yield, ast.YieldFrom))]
-        if not ys or any(isinstance(n, ast.Return) for n in ast.walk(callee)):
+        if not ys:
             return None
+        if any(isinstance(n, ast.Return) for n in ast.walk(callee)):
+            # `return` in a generator only ends it (a for loop drops the value): single-exit form, the marker assignments removed
+            if any(isinstance(n, ast.Return) for lp_ in ast.walk(callee) if isinstance(lp_, (ast.For, ast.While, ast.Try, ast.With)) for n in ast.walk(lp_)):
+                return None
+            se = _single_exit(copy.deepcopy([s for s in callee.body if not (isinstance(s, ast.Expr) and isinstance(s.value, ast.Constant))]), "__gret")
+            if se is None:
+                return None
+
+            def strip(stmts: list[ast.stmt]) -> list[ast.stmt]:
+                out_: list[ast.stmt] = []
+                for s_ in stmts:
+                    if isinstance(s_, ast.Assign) and isinstance(s_.targets[0], ast.Name) and s_.targets[0].id == "__gret":
+                        if not is_pure_expr(s_.value):
+                            out_.append(ast.copy_location(ast.Expr(value=s_.value), s_))
+                        continue
+                    if isinstance(s_, ast.If):
+                        s_.body = strip(s_.body) or [ast.copy_location(ast.Pass(), s_)]
+                        s_.orelse = strip(s_.orelse)
+                    out_.append(s_)
+                return out_
+            callee = copy.copy(callee)
+            callee.body = strip(se) or [ast.Pass()]
+            if any(isinstance(n, ast.Return) for n in ast.walk(callee)):
+                return None
 
         def own_level(stmts: list[ast.stmt], kinds: tuple) -> bool:
             for s in stmts:
@@ -1476,6 +1548,9 @@ class _Canon(ast.NodeTransformer):
     def visit_Call(self, node: ast.Call) -> ast.AST:
         self.generic_visit(node)
         f = node.func
+        lazy = _map_to_genexp(node)
+        if lazy is not None:
+            return ast.copy_location(lazy, node)
         if isinstance(f, ast.Attribute) and f.attr == "format" and isinstance(f.value, ast.Constant) and isinstance(f.value.value, str) \
                 and not any(isinstance(a, ast.Starred) for a in node.args) and all(k.arg is not None for k in node.keywords):
             js = _format_to_fstring(f.value.value, node.args, {k.arg: k.value for k in node.keywords})
@@ -1508,6 +1583,36 @@ class _Canon(ast.NodeTransformer):
         self.generic_visit(node)
         out = _lower_match(node)
         return out if out is not None else node
+
+
+_MAP_COUNTER = [0]
+
+
+def _map_to_genexp(node: ast.Call) -> ast.expr | None:
+    """map(f, it) / map(lambda x: E, it) / starmap(lambda a, b: E, it)  ->  the generator expression with the same elements
+    (both are lazy and evaluate `it` when they are created)."""
+    name = dotted(node.func)
+    if name not in ("map", "starmap", "itertools.starmap") or len(node.args) != 2 or node.keywords or any(isinstance(a, ast.Starred) for a in node.args):
+        return None
+    fn_, it = node.args
+    star = name != "map"
+    if isinstance(fn_, ast.Lambda):
+        a = fn_.args
+        if a.vararg or a.kwarg or a.kwonlyargs or a.defaults or a.posonlyargs:
+            return None
+        params = [x.arg for x in a.args]
+        if (not star and len(params) != 1) or (star and not params):
+            return None
+        tgt: ast.expr = ast.Name(id=params[0], ctx=ast.Store()) if not star else ast.Tuple(elts=[ast.Name(id=p_, ctx=ast.Store()) for p_ in params], ctx=ast.Store())
+        elt: ast.expr = fn_.body
+    elif isinstance(fn_, (ast.Name, ast.Attribute)) and not star:
+        _MAP_COUNTER[0] += 1
+        v = f"_m{_MAP_COUNTER[0]}"
+        tgt = ast.Name(id=v, ctx=ast.Store())
+        elt = ast.Call(func=fn_, args=[ast.Name(id=v, ctx=ast.Load())], keywords=[])
+    else:
+        return None
+    return ast.GeneratorExp(elt=elt, generators=[ast.comprehension(target=tgt, iter=it, ifs=[], is_async=0)])
 
 
 def _known_str(e: ast.expr) -> bool:
